@@ -16,4 +16,5 @@ echo "SEED $id $(basename $(dirname $dir))/$(basename $dir) tier=$tier demo(clea
 grep -m2 "violation:" "$out.log" | cut -c1-300
 git -C /repo worktree remove --force "$wt"; rm -rf "$out"
 # restore generated tables for the real tree
+./check tables >/dev/null 2>&1
 exit 0
